@@ -22,6 +22,11 @@ bitmap with different counts and bitmaps per subset (F4), bitmap reuse 236000/23
 203YYY defined in one subset only, 201/202/207/208 left open at the end, 204 left open, 221 count left
 open, 206 pending at the end, 203 definition left open, QA-info status pending, templates ending inside
 a bitmap definition, an associated-field / statistics meaning defined in one subset only.
+Plus the layout-varying bitmap templates of harness/c06gen.py (`layout`): several delayed replications of
+DIFFERENT elements, nested replication, 205YYY / 206YYY / 204YYY items in front of 1..3 bitmap constructs
+(222000 and the marker operators, 236000 / 237000 / 237255 / 235000 chains), with per-subset factors that
+compensate each other (equal flat length and bitmap length, different arrangement), bitmaps of equal or
+different length, equal / permuted / different bits, 2..5 subsets in shuffled order.
 """
 import itertools
 import json
@@ -29,6 +34,7 @@ import json
 from harness import core, tables_io
 from harness import coder_io as C
 from harness import coderprops as P
+from harness import c06gen
 
 PROP = 'C06'
 
@@ -426,6 +432,18 @@ def evaluate(drv, treq, cases, rng, quick=True):
             k = next((k for k in range(c.n) if cat[k] != cuts[k]), -1)
             probs.append(('encoder-together-vs-alone', 'data bits of together are not the concatenation of the bits of each '
                           'subset alone (first difference in subset %d)' % k, {'message_hex': bT.hex()}))
+            # the decoder all the same, on the message the encoder should have produced (the alone bit strings in a row)
+            bC = C.replace_data(bT, ''.join(cat))
+            oC = C.impl_decode(bC)
+            if oC[0] != 'ok':
+                probs.append(('together-vs-alone', 'the alone bit strings in a row fail to decode (%s), every subset alone decodes' % oC[0],
+                              {'message_hex': bC.hex()}))
+            else:
+                for k in range(c.n):
+                    why = subset_diff(oC[1][k], oA[k][1][0], 'alone bit strings in a row', 'alone')
+                    if why:
+                        probs.append(('together-vs-alone', 'subset %d: %s' % (k, why), {'message_hex': bC.hex(), 'subset': k}))
+                        break
             continue
         # alone, cut at the model's boundaries (decoder on the very bits of the together-message)
         frame1 = alone[0][1]
@@ -532,6 +550,9 @@ def process(ctx, drv, treq, cases, rng, tag):
         ctx.count('subsets-%d' % c.n)
         if tag == 'family':
             ctx.count('family:' + c.note.split(' ')[0])
+        if tag == 'layout':
+            for tok in c.note.split(' ')[1:]:
+                ctx.count('layout:' + tok)
         if len(counts) > 1:
             ctx.count('subsets-of-different-length')
         if info.get('enc') != 'ok':
@@ -624,6 +645,18 @@ def run(ctx):
         gcases = [c for c in cases if not (id(c) in tags or c.note.startswith('witness'))]
         process(ctx, drv, treq, fcases, rng, 'family')
         process(ctx, drv, treq, gcases, rng, 'grammar')
+    # layout-varying bitmap templates (own random stream: the cases above do not depend on this part)
+    lrng = ctx.rng('layout')
+    lg = c06gen.LayoutGen(lrng)
+    n_layout = 250 if quick else 6000
+    done = 0
+    while done < n_layout:
+        m = min(125 if quick else 1000, n_layout - done)
+        pairs = [lg.make(done + i) for i in range(m)]
+        done += m
+        cases = gen_values(drv, treq, pairs, lrng)
+        ctx.count('values-not-generated', len(pairs) - len(cases))
+        process(ctx, drv, treq, cases, lrng, 'layout')
 
 
 def replay(ctx, path):
